@@ -20,13 +20,14 @@ namespace MatTotal
 
 /-! ## the hypothesis -/
 
-/-- the names whose statistics entry matters: the runtime tensors that an operator selected for min/max quantization
-    reads or writes, and the float operand of a selected same-as-input operator (RESHAPE, TRANSPOSE, …: its entry is copied
-    to the results) even when it is a constant -/
+/-- the names whose statistics entry matters: the FLOAT32 runtime tensors that an operator selected for min/max quantization
+    reads or writes, and the float32 operand of a selected same-as-input operator (RESHAPE, TRANSPOSE, …: its entry is copied
+    to the results) even when it is a constant.  The entries of integer tensors (indices, the shape of a RESHAPE, …), which
+    `calibrate()` records too, are never read. -/
 def StatName (rx : String → String → Bool) (env : Env) (st : Recipe.State) (n : String) : Prop :=
   ∃ sg ∈ env.model.subgraphs, ∃ q ∈ allOps sg, ∃ k scope ops fn, Selected rx env st sg q k scope ops fn ∧
     (Recipe.resolve rx st k scope).1 = Tables.algMinMax ∧
-    ∃ a ∈ q.1.inputs ++ q.1.outputs, a ≠ -1 ∧ ∃ t, tensorAt sg a = .ok t ∧ t.name = n ∧
+    ∃ a ∈ q.1.inputs ++ q.1.outputs, a ≠ -1 ∧ ∃ t, tensorAt sg a = .ok t ∧ t.name = n ∧ t.dtype = Tables.ttFloat32 ∧
       (constData env t = none ∨ ((kindOf (Recipe.resolve rx st k scope).1 fn).isPass = true ∧ a ∈ q.1.inputs))
 
 /-- data / weight / bias positions of the convolution-like kinds -/
@@ -39,7 +40,7 @@ def convSlots : Kind → Option (Nat × Nat × Nat)
 structure Bounded (rx : String → String → Bool) (env : Env) (st : Recipe.State) (qsvs : Option Qsvs) : Prop where
   /-- every constant is finite: magnitudes at most `B` -/
   consts : ∀ sg ∈ env.model.subgraphs, ∀ t ∈ sg.tensors, ∀ d, constData env t = some d → ∀ x ∈ d.data, |x| ≤ B
-  /-- every relevant statistics entry is good: float32/float64, `min`/`max` of one all-ones shape, magnitudes at most `B`
+  /-- every relevant statistics entry is good: float32 / float64 / `exact`, `min`/`max` of one all-ones shape, magnitudes at most `B`
       (NO order between `min` and `max` is required) -/
   stats : ∀ n, StatName rx env st n → ∀ mn mx, Py.dictGet? (qsvs.getD []) n = some (some (mn, mx)) → StatGood mn mx
   /-- a CONSTANT float operand of a same-as-output operator (CONCATENATION) has the rank of the statistics of the result
@@ -73,7 +74,7 @@ def finB (v : Rat) : Bool := decide (-1000000 ≤ v) && decide (v ≤ 1000000)
 
 /-- Boolean form of `StatGood` (magnitudes at most `10^6`) for closed instances -/
 def statGoodB (mm : FArr × FArr) : Bool :=
-  (mm.1.pr == .f32 || mm.1.pr == .f64) && (mm.2.pr == .f32 || mm.2.pr == .f64) && mm.1.arr.shape == mm.2.arr.shape &&
+  (mm.1.pr == .f32 || mm.1.pr == .f64 || mm.1.pr == .exact) && (mm.2.pr == .f32 || mm.2.pr == .f64 || mm.2.pr == .exact) && mm.1.arr.shape == mm.2.arr.shape &&
     mm.1.arr.data.all finB && mm.2.arr.data.all finB && mm.1.arr.shape.all (· == 1)
 
 theorem finB_sound (v : Rat) (h : finB v = true) : |v| ≤ B := by
@@ -86,7 +87,8 @@ theorem statGoodB_sound (mm : FArr × FArr) (h : statGoodB mm = true) : StatGood
   unfold statGoodB at h
   simp only [Bool.and_eq_true, Bool.or_eq_true, beq_iff_eq, List.all_eq_true] at h
   obtain ⟨⟨⟨⟨⟨h1, h2⟩, h3⟩, h4⟩, h5⟩, h6⟩ := h
-  exact ⟨⟨h1, h2, h3, fun v hv => finB_sound v (h4 v hv), fun v hv => finB_sound v (h5 v hv)⟩, h6⟩
+  exact ⟨⟨or_assoc.1 h1, or_assoc.1 h2, h3,
+    fun v hv => finB_sound v (h4 v hv), fun v hv => finB_sound v (h5 v hv)⟩, h6⟩
 
 theorem fixed_closed (sl sym : Bool) (bits : Nat) (hb : bits = 8 ∨ bits = 16) :
     (match fixedParams sl bits with
@@ -150,12 +152,12 @@ theorem opReqs_statsInv (rx : String → String → Bool) (env : Env) (st : Reci
         simp only [] at hv
         subst hv
         refine hinv t.name ?_ mn mx hiq
-        obtain ⟨i, a, hia, hane, hat, _, _⟩ := floatSlots_mem sg oi.op true gi [t] hI t List.mem_cons_self
+        obtain ⟨i, a, hia, hane, hat, hfl, _⟩ := floatSlots_mem sg oi.op true gi [t] hI t List.mem_cons_self
         simp only [if_true] at hia
         rw [hop] at hia
         obtain ⟨hp, halg⟩ := hpass hc
         exact ⟨sg, hsg, q, hq, k, scope, ops, fn, S, halg, a, List.mem_append_left _ (List.mem_of_getElem? hia), hane, t, hat, rfl,
-          .inr ⟨hp, List.mem_of_getElem? hia⟩⟩
+          hfl, .inr ⟨hp, List.mem_of_getElem? hia⟩⟩
       · exact hinv n hn mn mx hold
   cases hk : kindOf (Recipe.resolve rx st k scope).1 fn with
   | unknown => rw [hk] at hrun; cases hrun
@@ -416,8 +418,8 @@ theorem numKind_of_bounded (rx : String → String → Bool) (env : Env) (st : R
   have hrun : (Recipe.resolve rx st k scope).1 = Tables.algMinMax → ∀ (b : Bool) (gg : List Nat) (t : Tensor),
       SlotTensor sg q.1 b gg t → constData env t = none →
       ∀ mn mx, Py.dictGet? qs t.name = some (some (mn, mx)) → StatGood mn mx := by
-    intro halg b gg t ⟨i, a, hia, hane, hat, _, _⟩ hc mn mx hg
-    refine hinv t.name ⟨sg, hsg, q, hq, k, scope, ops, fn, S, halg, a, ?_, hane, t, hat, rfl, .inl hc⟩ mn mx hg
+    intro halg b gg t ⟨i, a, hia, hane, hat, hfl, _⟩ hc mn mx hg
+    refine hinv t.name ⟨sg, hsg, q, hq, k, scope, ops, fn, S, halg, a, ?_, hane, t, hat, rfl, hfl, .inl hc⟩ mn mx hg
     cases b
     · exact List.mem_append_right _ (List.mem_of_getElem? hia)
     · exact List.mem_append_left _ (List.mem_of_getElem? hia)
